@@ -149,6 +149,10 @@ def cases(draw, tier):
         "form": draw(st.sampled_from(gen.FORMS)),
         "history": draw(ops.histories("any", poke=True)),
     }
+    if draw(st.sampled_from([False] * 29 + [True])):
+        # one axis past 256 entries (block-wise writers / readers)
+        spec = draw(gen.big_specs(md="simple", values="dyadic"))
+        spec["table_id"] = None
     return {"table": spec, "generated_by": draw(ANYTEXT1),
             "date": c01.date_to_json(draw(c01.DATES)),
             "reader": draw(st.sampled_from(["load_table", "load_table_gz",
